@@ -80,6 +80,10 @@ pub open spec fn conv<R: RealNumberInternalTrait>(n: Number<R>) -> R {
 pub open spec fn i32r(x: int) -> bool { -0x8000_0000 <= x <= 0x7fff_ffff }
 /// the unreduced result n/d (d > 0) is representable as an exact number
 pub open spec fn fits(n: int, d: int) -> bool { -0x8000_0000 < n < 0x8000_0000 && 0 < d < 0x8000_0000 }
+/// the exact number r is represented no larger than the unreduced fraction n/d
+pub open spec fn size_le<R: RealNumberInternalTrait>(r: Number<R>, n: int, d: int) -> bool {
+    abs_int(numer(r)) <= abs_int(n) && denom(r) <= abs_int(d)
+}
 /// q is the greatest integer not above the exact number x
 pub open spec fn is_floor<R: RealNumberInternalTrait>(q: int, x: Number<R>) -> bool {
     q * denom(x) <= numer(x) < (q + 1) * denom(x)
@@ -227,6 +231,127 @@ proof fn lemma_floor_of_quotient<R: RealNumberInternalTrait>(q: int, z: Number<R
     }
 }
 
+pub open spec fn sm(x: int) -> bool { -0x8000 < x < 0x8000 }
+pub open spec fn floor_rel(q: int, nn: int, dd: int) -> bool {
+    if dd > 0 { q * dd <= nn < (q + 1) * dd } else { q * dd >= nn > (q + 1) * dd }
+}
+proof fn lemma_floor_gap(q: int, nn: int, dd: int)
+    requires dd != 0, floor_rel(q, nn, dd)
+    ensures abs_int(nn - q * dd) < abs_int(dd), dd > 0 ==> 0 <= nn - q * dd, dd < 0 ==> nn - q * dd <= 0
+{
+    assert((q + 1) * dd == q * dd + dd) by(nonlinear_arith);
+}
+// A: the product q * d fits
+proof fn lemma_fr_a(a1: int, a2: int, b1: int, b2: int, q: int)
+    requires sm(a1), sm(a2), sm(b1), sm(b2), a2 > 0, b2 > 0, b1 != 0, floor_rel(q, a1 * b2, a2 * b1)
+    ensures -0x8000_0000 < q * b1 < 0x8000_0000
+{
+    let nn = a1 * b2; let dd = a2 * b1;
+    assert(dd != 0) by(nonlinear_arith) requires dd == a2 * b1, a2 > 0, b1 != 0;
+    lemma_floor_gap(q, nn, dd);
+    assert(abs_int(nn) < 0x4000_0000) by(nonlinear_arith) requires nn == a1 * b2, sm(a1), sm(b2);
+    assert(abs_int(dd) < 0x4000_0000) by(nonlinear_arith) requires dd == a2 * b1, sm(a2), sm(b1);
+    // |q*dd| < |nn| + |dd|
+    assert(abs_int(q * dd) < 0x8000_0000);
+    assert(q * dd == (q * b1) * a2) by(nonlinear_arith) requires dd == a2 * b1;
+    assert(abs_int(q * b1) <= abs_int((q * b1) * a2)) by(nonlinear_arith) requires a2 >= 1;
+}
+// B: the difference n - q*d fits
+proof fn lemma_fr_b(a1: int, a2: int, b1: int, b2: int, q: int, pn: int, pd: int)
+    requires sm(a1), sm(a2), sm(b1), sm(b2), a2 > 0, b2 > 0, b1 != 0, floor_rel(q, a1 * b2, a2 * b1),
+        pd > 0, pd <= b2, pn * b2 == (q * b1) * pd
+    ensures -0x8000_0000 < a1 * pd - a2 * pn < 0x8000_0000, 0 < a2 * pd < 0x8000_0000
+{
+    let nn = a1 * b2; let dd = a2 * b1;
+    assert(dd != 0) by(nonlinear_arith) requires dd == a2 * b1, a2 > 0, b1 != 0;
+    lemma_floor_gap(q, nn, dd);
+    let np = a1 * pd - a2 * pn;
+    let t = pn * b2;
+    assert(np * b2 == (a1 * pd) * b2 - a2 * t) by(nonlinear_arith)
+        requires np == a1 * pd - a2 * pn, t == pn * b2;
+    let u = q * b1;
+    assert(t == u * pd);
+    assert(a2 * t == pd * (u * a2)) by(nonlinear_arith) requires t == u * pd;
+    assert((a1 * pd) * b2 == pd * (a1 * b2)) by(nonlinear_arith);
+    assert(u * a2 == q * (a2 * b1)) by(nonlinear_arith) requires u == q * b1;
+    assert(pd * (a1 * b2) - pd * (q * (a2 * b1)) == pd * (a1 * b2 - q * (a2 * b1))) by(nonlinear_arith);
+    assert(np * b2 == pd * (nn - q * dd));
+    let g = nn - q * dd;
+    assert(abs_int(dd) < 0x4000_0000) by(nonlinear_arith) requires dd == a2 * b1, sm(a2), sm(b1);
+    // |np| * b2 = pd * |g| < b2 * |dd|
+    assert(abs_int(np) < abs_int(dd)) by(nonlinear_arith)
+        requires np * b2 == pd * g, abs_int(g) < abs_int(dd), 0 < pd <= b2, b2 > 0;
+    assert(0 < a2 * pd < 0x8000_0000) by(nonlinear_arith) requires 0 < a2 < 0x8000, 0 < pd <= b2, b2 < 0x8000;
+}
+// C: n = d*q + r
+proof fn lemma_fr_c(a1: int, a2: int, b1: int, b2: int, q: int, pn: int, pd: int, rn: int, rd: int)
+    requires a2 > 0, b2 > 0, pd > 0, pn * b2 == (q * b1) * pd,
+        rn * (a2 * pd) == (a1 * pd + (-1) * (a2 * pn)) * rd
+    ensures a1 * b2 * rd == (b1 * q * rd + rn * b2) * a2
+{
+    let u = q * b1;            // pn * b2 == u * pd
+    let np = a1 * pd - a2 * pn; // rn * (a2 * pd) == np * rd
+    assert(a1 * pd + (-1) * (a2 * pn) == np);
+    // np * b2 == pd * (a1*b2 - a2*u)
+    let t = pn * b2;
+    assert(np * b2 == (a1 * pd) * b2 - a2 * t) by(nonlinear_arith) requires np == a1 * pd - a2 * pn, t == pn * b2;
+    assert(a2 * t == pd * (a2 * u)) by(nonlinear_arith) requires t == u * pd;
+    assert((a1 * pd) * b2 == pd * (a1 * b2)) by(nonlinear_arith);
+    let w = a1 * b2 - a2 * u;
+    assert(pd * (a1 * b2) - pd * (a2 * u) == pd * w) by(nonlinear_arith) requires w == a1 * b2 - a2 * u;
+    assert(np * b2 == pd * w);
+    // multiply the difference equation by b2 and cancel pd
+    let x = rn * a2;
+    assert(rn * (a2 * pd) == x * pd) by(nonlinear_arith) requires x == rn * a2;
+    assert(x * pd == np * rd);
+    assert((x * b2) * pd == (x * pd) * b2) by(nonlinear_arith);
+    assert((np * rd) * b2 == (np * b2) * rd) by(nonlinear_arith);
+    assert((pd * w) * rd == (w * rd) * pd) by(nonlinear_arith);
+    assert((x * b2) * pd == (w * rd) * pd);
+    assert(x * b2 == w * rd) by(nonlinear_arith) requires (x * b2) * pd == (w * rd) * pd, pd > 0;
+    // rearrange: a1*b2*rd == (b1*q*rd + rn*b2) * a2
+    assert(w * rd == (a1 * b2) * rd - (a2 * u) * rd) by(nonlinear_arith) requires w == a1 * b2 - a2 * u;
+    assert((a2 * u) * rd == ((b1 * q) * rd) * a2) by(nonlinear_arith) requires u == q * b1;
+    assert(x * b2 == (rn * b2) * a2) by(nonlinear_arith) requires x == rn * a2;
+    assert(((b1 * q) * rd + rn * b2) * a2 == ((b1 * q) * rd) * a2 + (rn * b2) * a2) by(nonlinear_arith);
+    assert(a1 * b2 * rd == (b1 * q * rd + rn * b2) * a2);
+}
+
+/// r is the remainder of n by d for the integer quotient q:   n = d*q + r
+pub open spec fn is_remainder<R: RealNumberInternalTrait>(r: Number<R>, n: Number<R>, d: Number<R>, q: int) -> bool {
+    numer(n) * denom(d) * denom(r) == (numer(d) * q * denom(r) + numer(r) * denom(d)) * denom(n)
+}
+/// premises shared by the three floor_remainder hints: exact operands with positive denominators, non-zero divisor,
+/// fq the integer floor quotient
+pub open spec fn fr_ctx<R: RealNumberInternalTrait>(n: Number<R>, d: Number<R>, fq: Number<R>) -> bool {
+    is_exact(n) && is_exact(d) && wf(n) && wf(d) && numer(d) != 0 && fq is Integer
+        && is_floor_of_quotient(numer(fq), n, d)
+}
+proof fn lemma_fr_product_fits<R: RealNumberInternalTrait>(n: Number<R>, d: Number<R>, fq: Number<R>)
+    requires fr_ctx(n, d, fq), small(n), small(d),
+    ensures fits(numer(fq) * numer(d), denom(fq) * denom(d)),
+{
+    lemma_fr_a(numer(n), denom(n), numer(d), denom(d), numer(fq));
+    assert(denom(fq) * denom(d) == denom(d)) by(nonlinear_arith) requires denom(fq) == 1;
+}
+proof fn lemma_fr_difference_fits<R: RealNumberInternalTrait>(n: Number<R>, d: Number<R>, fq: Number<R>, p: Number<R>)
+    requires fr_ctx(n, d, fq), small(n), small(d), is_exact(p), wf(p), is_product(p, fq, d),
+        size_le(p, numer(fq) * numer(d), denom(fq) * denom(d)),
+    ensures fits(numer(n) * denom(p) - denom(n) * numer(p), denom(n) * denom(p)),
+{
+    assert(denom(fq) * denom(d) == denom(d)) by(nonlinear_arith) requires denom(fq) == 1;
+    assert(p is Integer ==> denom(p) == 1);
+    lemma_fr_b(numer(n), denom(n), numer(d), denom(d), numer(fq), numer(p), denom(p));
+}
+proof fn lemma_fr_equation<R: RealNumberInternalTrait>(n: Number<R>, d: Number<R>, fq: Number<R>, p: Number<R>, r: Number<R>)
+    requires fr_ctx(n, d, fq), is_exact(p), wf(p), is_product(p, fq, d), is_exact(r), wf(r), is_sum(r, n, p, -1),
+    ensures is_remainder(r, n, d, numer(fq)),
+{
+    assert(denom(fq) * denom(d) == denom(d)) by(nonlinear_arith) requires denom(fq) == 1;
+    lemma_fr_c(numer(n), denom(n), numer(d), denom(d), numer(fq), numer(p), denom(p), numer(r), denom(r));
+    assert(numer(d) * numer(fq) * denom(r) == numer(d) * numer(fq) * denom(r));
+}
+
 proof fn lemma_mul_commutes()
     ensures forall|x: int, y: int| #![trigger x * y] x * y == y * x,
 {
@@ -245,6 +370,7 @@ proof fn lemma_i32_products()
             ==> -0x3fff_ffff_8000_0000 <= x * y <= 0x3fff_ffff_8000_0000,
         forall|x: int, y: int| #![trigger x * y] 0 < x && 0 < y ==> 0 < x * y,
         forall|x: int, y: int| #![trigger x * y] x != 0 && y != 0 ==> x * y != 0,
+        forall|x: int, y: int| #![trigger x * y] (y == 1 ==> x * y == x) && (x == 1 ==> x * y == y),
         forall|x: int, y: int| #![trigger x * y] -0x8000 < x < 0x8000 && -0x8000 < y < 0x8000
             ==> -0x4000_0000 < x * y < 0x4000_0000,
 {
@@ -265,6 +391,9 @@ proof fn lemma_i32_products()
     }
     assert forall|x: int, y: int| #![trigger x * y] 0 < x && 0 < y implies 0 < x * y by {
         assert(0 < x * y) by(nonlinear_arith) requires 0 < x, 0 < y;
+    }
+    assert forall|x: int, y: int| #![trigger x * y] (y == 1 ==> x * y == x) && (x == 1 ==> x * y == y) by {
+        assert((y == 1 ==> x * y == x) && (x == 1 ==> x * y == y)) by(nonlinear_arith);
     }
     assert forall|x: int, y: int| #![trigger x * y] x != 0 && y != 0 implies x * y != 0 by {
         assert(x * y != 0) by(nonlinear_arith) requires x != 0, y != 0;
@@ -291,6 +420,11 @@ FLOOR_HINT = """                proof {
 WIDEN = (r"let \(a1, a2, b1, b2\) = \(a1 as i64, a2 as i64, b1 as i64, b2 as i64\);",
          "                proof { assert(is_exact(self) && is_exact(rhs) ==> denom(self) == a2 && denom(rhs) == b2 "
          "&& numer(self) == a1 && numer(rhs) == b1); }")
+
+# in the ratio arm of eq / partial_cmp: name the components (a solver hint, no new fact)
+CMP_HINT = (r"NumberBinaryOperand::Rational\(a1, a2, b1, b2\) => \{",
+            "                proof { assert(is_exact(*self) && is_exact(*other) ==> numer(*self) == a1 && denom(*self) == a2 "
+            "&& numer(*other) == b1 && denom(*other) == b2); }")
 
 V = "src/values.rs"
 IMPLN = r"^impl<R: RealNumberInternalTrait> Number<R>$"
@@ -360,6 +494,7 @@ fn check_division_by_zero_err<T>() -> (r: Result<T>)
                 &&& (is_exact(r) ==> wf(r) && is_sum(r, self, rhs, 1))
                 &&& (small(self) && small(rhs) ==> is_exact(r))
                 &&& (fits(numer(self) * denom(rhs) + denom(self) * numer(rhs), denom(self) * denom(rhs)) ==> is_exact(r))
+                &&& (is_exact(r) ==> size_le(r, numer(self) * denom(rhs) + denom(self) * numer(rhs), denom(self) * denom(rhs)))
             },
             !is_exact(self) || !is_exact(rhs) ==> r == Number::Real(conv(self).add_spec(conv(rhs))),"""}}},
         {"kind": "impl", "file": V, "impl": r"std::ops::Sub<Number<R>> for Number<R>$",
@@ -371,6 +506,7 @@ fn check_division_by_zero_err<T>() -> (r: Result<T>)
                 &&& (is_exact(r) ==> wf(r) && is_sum(r, self, rhs, -1))
                 &&& (small(self) && small(rhs) ==> is_exact(r))
                 &&& (fits(numer(self) * denom(rhs) - denom(self) * numer(rhs), denom(self) * denom(rhs)) ==> is_exact(r))
+                &&& (is_exact(r) ==> size_le(r, numer(self) * denom(rhs) - denom(self) * numer(rhs), denom(self) * denom(rhs)))
             },
             !is_exact(self) || !is_exact(rhs) ==> r == Number::Real(conv(self).sub_spec(conv(rhs))),"""}}},
         {"kind": "impl", "file": V, "impl": r"std::ops::Mul<Number<R>> for Number<R>$",
@@ -382,6 +518,7 @@ fn check_division_by_zero_err<T>() -> (r: Result<T>)
                 &&& (is_exact(r) ==> wf(r) && is_product(r, self, rhs))
                 &&& (small(self) && small(rhs) ==> is_exact(r))
                 &&& (fits(numer(self) * numer(rhs), denom(self) * denom(rhs)) ==> is_exact(r))
+                &&& (is_exact(r) ==> size_le(r, numer(self) * numer(rhs), denom(self) * denom(rhs)))
             },
             !is_exact(self) || !is_exact(rhs) ==> r == Number::Real(conv(self).mul_spec(conv(rhs))),"""}}},
         {"kind": "impl", "file": V, "impl": r"std::ops::Div<Number<R>> for Number<R>$",
@@ -404,14 +541,14 @@ fn check_division_by_zero_err<T>() -> (r: Result<T>)
         {"kind": "impl", "file": V, "impl": r"^impl<R: RealNumberInternalTrait> PartialEq for Number<R>$",
          "methods": {"eq": {"props": ["C10", "C07"],
              "sig_rewrites": [("S1", r"-> bool$", "-> (r: bool)")],
-             "body_start": R_OPS_CMP,
+             "body_start": R_OPS, "inserts": [CMP_HINT], "attrs": "#[verifier::spinoff_prover]",
              "contract": """        ensures
             wf(*self) && wf(*other) && is_exact(*self) && is_exact(*other) ==> r == q_eq(*self, *other),
             !is_exact(*self) || !is_exact(*other) ==> r == conv(*self).eq_spec(&conv(*other)),"""}}},
         {"kind": "impl", "file": V, "impl": r"^impl<R: RealNumberInternalTrait> PartialOrd for Number<R>$",
          "methods": {"partial_cmp": {"props": ["C10", "C07"],
              "sig_rewrites": [("S1", r"-> Option<Ordering>$", "-> (r: Option<Ordering>)")],
-             "body_start": R_OPS_CMP,
+             "body_start": R_OPS, "inserts": [CMP_HINT], "attrs": "#[verifier::spinoff_prover]",
              "contract": """        ensures
             wf(*self) && wf(*other) && is_exact(*self) && is_exact(*other) ==> r == Some(
                 if q_lt(*self, *other) { Ordering::Less } else if q_eq(*self, *other) { Ordering::Equal } else { Ordering::Greater }),
@@ -438,7 +575,9 @@ fn check_division_by_zero_err<T>() -> (r: Result<T>)
             is_exact(r) ==> wf(r) && numer(r) * den == num * denom(r),
             -0x8000_0000 < num < 0x8000_0000 && -0x8000_0000 < den < 0x8000_0000 ==> is_exact(r),
             den == 1 && is_exact(r) ==> r == Number::<R>::Integer(num as i32),
-            is_exact(r) && num >= 0 && den > 0 ==> numer(r) >= 0,"""},
+            is_exact(r) && num >= 0 && den > 0 ==> numer(r) >= 0,
+            // the representation is never larger than the unreduced one (also true of a reducing implementation)
+            is_exact(r) ==> abs_int(numer(r)) <= abs_int(num as int) && denom(r) <= abs_int(den as int),"""},
 
              "abs": {"props": ["C09", "C07"],
                  "sig_rewrites": [("S1", r"-> Number<R>$", "-> (r: Number<R>)")],
@@ -468,6 +607,34 @@ fn check_division_by_zero_err<T>() -> (r: Result<T>)
             is_exact(self) ==> r is Integer && is_ceiling(numer(r), self),
             self matches Number::Real(x) ==> r == Number::Real(x.ceil_spec()),"""},
 
+
+             "floor_remainder": {"props": ["C09", "C07"],
+                 "sig_rewrites": [("S1", r"-> Result<Self>$", "-> (r: Result<Self>)")],
+                 "body_start": R_OPS + """
+        proof {
+            assert forall|fq: Number<R>| #![trigger is_floor_of_quotient(numer(fq), self, rhs)]
+                fr_ctx(self, rhs, fq) && small(self) && small(rhs)
+                implies fits(numer(fq) * numer(rhs), denom(fq) * denom(rhs)) by { lemma_fr_product_fits(self, rhs, fq); }
+            assert forall|fq: Number<R>, p: Number<R>| #![trigger is_product(p, fq, rhs)]
+                fr_ctx(self, rhs, fq) && small(self) && small(rhs) && is_exact(p) && wf(p) && is_product(p, fq, rhs)
+                && size_le(p, numer(fq) * numer(rhs), denom(fq) * denom(rhs))
+                implies fits(numer(self) * denom(p) - denom(self) * numer(p), denom(self) * denom(p))
+                by { lemma_fr_difference_fits(self, rhs, fq, p); }
+            assert forall|fq: Number<R>, p: Number<R>, r: Number<R>| #![trigger is_product(p, fq, rhs), is_sum(r, self, p, -1)]
+                fr_ctx(self, rhs, fq) && is_exact(p) && wf(p) && is_product(p, fq, rhs) && is_exact(r) && wf(r) && is_sum(r, self, p, -1)
+                implies is_remainder(r, self, rhs, numer(fq)) by { lemma_fr_equation(self, rhs, fq, p, r); }
+        }""",
+                 "contract": """        requires wf(self), wf(rhs),
+        ensures
+            is_exact(self) && is_exact(rhs) && numer(rhs) == 0 ==> is_div_by_zero(r),
+            is_exact(self) && is_exact(rhs) && numer(rhs) != 0 ==> r is Ok && {
+                // never wrong: an exact remainder satisfies n = d*q + r for the floor quotient q
+                &&& (is_exact(r->Ok_0) ==> wf(r->Ok_0) && exists|q: int| is_floor_of_quotient(q, self, rhs)
+                        && is_remainder(r->Ok_0, self, rhs, q))
+                // always exact below 2^15
+                &&& (small(self) && small(rhs) ==> is_exact(r->Ok_0))
+            },
+            !is_exact(self) || !is_exact(rhs) ==> r is Ok && r->Ok_0 is Real,"""},
              "floor_quotient": {"props": ["C09", "C08", "C07"],
                  "sig_rewrites": [("S1", r"-> Result<Self>$", "-> (r: Result<Self>)")],
                  "body_start": R_OPS + """
